@@ -17,7 +17,7 @@ META = {
              "the monotonicity clause; distinct by structural hash; non-trivial = >= 2 measured qubits interleaved and (nesting >= 2 or product of counts >= 4)"),
     "assumptions": ["numbering oracle is the statement itself (dense 0..N-1 along the listing); Stim's text/flattened form is trusted for the export-order clause"],
     "floors": {
-        "quick": {"measurements_observed": 30000, "tag_filters_checked": 15000, "export_order_checked": 3000, "monotonic_circuits": 300, "library_circuits": 40},
+        "quick": {"flattened_export_order_checked": 2500, "nested_unrolled_monotonic_circuits": 600, "measurements_observed": 30000, "tag_filters_checked": 15000, "export_order_checked": 3000, "monotonic_circuits": 300, "library_circuits": 40},
         "thorough": {"measurements_observed": 300000, "tag_filters_checked": 150000, "export_order_checked": 30000, "monotonic_circuits": 3000},
     },
 }
@@ -195,6 +195,22 @@ def check_program(prog: Dict[str, Any], acc: Acc, flags=None):
                 inherent = (not (only_a or only_b) or bool(stats.get("unroll_degenerate"))) and not built.link_violations
                 for f in sub.findings:
                     acc.finding(f["sig"] + ("/nested-placement-rule" if inherent else ""), f["what"], f["case"], f["detail"])
+        # ---- the same circuit flattened (flatten removes the nesting of a circuit whose modifiers are applied): the ENUMERATION clauses -
+        #      0..N-1 along the (new) listing, filters, export order - hold for it as well; the time clause is not evaluated here (9.3).
+        #      Seeded change C07-r12: flatten returned a new structure while the measurements' registries kept enumerating the nested one.
+        if prog.get("flatten_too", True) and len(measures) <= 60:
+            fresh = bp.build(prog, bp.Ctx(prog.get("settings"))).top.circuit.apply_modifiers()
+            try:
+                flat = fresh.flatten()
+            except RecursionError:
+                flat = None
+            if flat is not None:
+                sub = Acc()
+                measures_f = check_indices(flat, sub, case, prefix="flattened/")
+                check_export_order(flat, measures_f, sub, case)
+                acc.merge_counts({"flattened_" + k: v for k, v in sub.counters.items()})
+                for f in sub.findings:
+                    acc.finding(f["sig"] if f["sig"].startswith("flattened/") else "flattened/" + f["sig"], f["what"] + " (flattened circuit)", f["case"], f["detail"])
         qs = [m.qubit_index for m in measures]
         product = 1
         flags["nontrivial"] = interleaved(qs) and (st["depth"] >= 2 or _product(prog["circuit"], ctx.S) >= 4)
